@@ -1,6 +1,7 @@
 import Rs1090.Proofs.CprGlobal
 /-!
-The f64 argument for CPR decoding, as theorems (C04 / C05) — WITHOUT a model of IEEE-754 rounding.
+The f64 argument for CPR decoding, as theorems (C04 / C05) — for an abstract rounding function; the IEEE-754
+instance is defined and proved in `Proofs/IeeeRound.lean` (`rounding_fl64 : Rounding fl64`).
 
 `crates/rs1090/src/decode/cpr.rs` computes in `f64`; `Model/Cpr.lean` in exact rationals.  This file
 relates the two through
@@ -9,8 +10,8 @@ relates the two through
 * `Rounding fl` — the *standard model* of rounding as a HYPOTHESIS on an abstract `fl : ℚ → ℚ`:
   `fl` is the identity on `F64Exact` values, monotone, and `|fl x − x| ≤ |x|·2⁻⁵³ + 2⁻¹⁰⁷⁵` for
   `|x| ≤ 2^1023` (the second term is half the spacing of the subnormals; without it the hypothesis would be
-  false of IEEE for |x| < 2⁻¹⁰²²).  IEEE-754 round-to-nearest satisfies it — that is the trusted part;
-  `Rounding id` shows the hypothesis is satisfiable.
+  false of IEEE for |x| < 2⁻¹⁰²²).  IEEE-754 binary64 round-to-nearest-even satisfies it — a theorem,
+  `IeeeRound.rounding_fl64`; `Rounding id` is the trivial instance.
 
 The `f…` definitions below follow the Rust expressions one by one with `fl` after EVERY operation (also
 after those that turn out to be exact).  Two kinds of theorems:
@@ -37,7 +38,7 @@ def u : ℚ := 1 / 2 ^ 53
 def eta : ℚ := 1 / 2 ^ 1075
 
 /-- **The rounding hypothesis** (standard model; the real instance is IEEE-754 round-to-nearest-even of
-    binary64, which is trusted, not modelled). -/
+    binary64: `fl64` of `Proofs/IeeeRound.lean`, proved there to satisfy it). -/
 structure Rounding (fl : ℚ → ℚ) : Prop where
   exact : ∀ q, F64Exact q → fl q = q
   err : ∀ q, |q| ≤ 2 ^ 1023 → |fl q - q| ≤ |q| * u + eta
